@@ -213,7 +213,8 @@ theorem C13_failed_statement_keeps_autocommit (m : Mode) (s : Sys) (c : Nat) (hi
       · exact step_tx_other _ _ _ _ _ hd
 
 /-- **Sticky to theirs** (`instance.py:83`, `conn.py:124-126`, `conn.py:121-122,146-147`): for every event list
-    (connects – opened with or without a database/schema argument, `Ev.connect named` for both values –, cursor creations, statements on any cursor, `conn.commit()`/`conn.rollback()`) starting from a
+    (connects – opened with or without a database/schema argument, `Ev.connect named` for both values –, cursor creations from the opening thread or from any other thread (`Ev.cursor c foreign`),
+    `with conn:` / `with cursor:` blocks ending normally or by an exception (`Ev.blockExit`, which runs nothing), statements on any cursor, `conn.commit()`/`conn.rollback()`) starting from a
     fresh instance, the real plumbing – a new engine connection per `connect()`, cursors sharing their
     connection's – behaves exactly like the history in which each statement is issued by the *fake connection*
     that owns the cursor: same final state, same observations.  So every theorem above, stated per
@@ -230,7 +231,7 @@ theorem C13_sticky (m : Mode) (com : Store) (evs : List Ev) :
     `self.duck_conn.cursor()`) to connections opened without a database/schema (`Ev.connect false`) – or to all –, connection 1 would read connection 0's uncommitted insert and a
     ROLLBACK by connection 1 would destroy it – the bookkeeping theorem `C13_sticky` fails. -/
 theorem C13_shared_connection_breaks_isolation :
-    let evs := [Ev.connect false, .connect false, .cursor 0, .cursor 1,
+    let evs := [Ev.connect false, .connect false, .cursor 0 false, .cursor 1 false,
                 .exec 0 .begin, .exec 0 (.dml 0 (.ins 1 1)), .exec 1 (.sel 0)]
     (World.run true .duck (World.init empty) evs).2.getLast? = some (some (.rows [(1, 1)])) ∧
     (World.run false .duck (World.init empty) evs).2.getLast? = some (some (.rows [])) := by
